@@ -52,6 +52,10 @@ Lemma padd_comm a b : padd a b = padd b a.
 Proof. pts. pteq. Qed.
 Lemma psub_self_add c d : psub (padd c d) c = d.
 Proof. apply psub_padd. Qed.
+Lemma psub_zero c c0 : psub c c0 = (0, 0, 0) -> c = c0.
+Proof. pts. intros H. inversion H. pteq. Qed.
+Lemma padd_zero_inv c d : c = padd c d -> d = (0, 0, 0).
+Proof. pts. intros H. inversion H. pteq. Qed.
 Lemma gsub_gsub g c d : gsub (gsub g c) d = gsub g (padd c d).
 Proof. destruct g as [p a]. unfold gsub. cbn [fst snd]. rewrite psub_psub. reflexivity. Qed.
 Lemma dsub_swap e c : dsub (swap e) c = swap (dsub e c).
@@ -244,9 +248,9 @@ Qed.
 Lemma dedges_facts i u v : 0 <= i < 256 -> In (u, v) (dedges (ltris i)) ->
   In u E12 /\ In v E12 /\ u <> v.
 Proof.
-  intros Hi Hin. pose proof dedges_ok as H. unfold dedges_check in H.
-  rewrite forallb_forall in H. specialize (H i (proj2 (in_idx256 i) Hi)).
-  rewrite forallb_forall in H. specialize (H _ Hin). cbn [fst snd] in H.
+  intros Hi Hin. pose proof (all1_spec _ _ dedges_ok i (proj2 (in_idx256 i) Hi)) as H.
+  unfold dedges_pred in H. rewrite forallb_forall in H. specialize (H _ Hin).
+  unfold dedge_pred in H. cbn [fst snd] in H.
   rewrite !andb_true_iff, negb_true_iff, ge_eqb_neq, !in_e12_in in H. tauto.
 Qed.
 Lemma lcount_pos_facts i u v : 0 <= i < 256 -> (0 < lcount i (u, v))%nat -> In u E12 /\ In v E12 /\ u <> v.
@@ -254,8 +258,8 @@ Proof. intros Hi H. apply countd_pos in H. eapply dedges_facts; eauto. Qed.
 
 Lemma e12_coords x y z a : In ((x, y, z), a) E12 -> 0 <= x <= 1 /\ 0 <= y <= 1 /\ 0 <= z <= 1.
 Proof.
-  intros Hin. pose proof e12_unit_ok as H. unfold e12_unit_check in H. rewrite forallb_forall in H.
-  specialize (H _ Hin). cbn beta iota in H. rewrite !andb_true_iff, !orb_true_iff, !Z.eqb_eq in H. lia.
+  intros Hin. pose proof (all1_spec _ _ e12_unit_ok _ Hin) as H. unfold e12_unit_pred in H.
+  rewrite !andb_true_iff, !orb_true_iff, !Z.eqb_eq in H. lia.
 Qed.
 
 Lemma in_cube27 x y z : -1 <= x <= 1 -> -1 <= y <= 1 -> -1 <= z <= 1 -> In (x, y, z) cube27.
@@ -273,8 +277,7 @@ Proof.
   assert (In d cube27) as Hc.
   { destruct u as [[[x y] z] a], d as [[dx dy] dz]. unfold gsub, psub in Hu'. cbn [fst snd] in Hu'.
     apply e12_coords in Hu, Hu'. apply in_cube27; lia. }
-  pose proof fdir_ok as H. unfold fdir_check in H. rewrite forallb_forall in H. specialize (H u Hu).
-  rewrite forallb_forall in H. specialize (H v Hv). rewrite forallb_forall in H. specialize (H d Hc).
+  pose proof (all3_spec _ _ _ _ fdir_ok u v d Hu Hv Hc) as H. unfold fdir_pred in H.
   assert (negb (ge_eqb u v) && negb (pt_eqb d (0, 0, 0)) && in_e12 (gsub u d) && in_e12 (gsub v d) = true) as C.
   { rewrite !andb_true_iff, !negb_true_iff, ge_eqb_neq, !in_e12_in. repeat split; auto.
     destruct (pt_eqb d (0, 0, 0)) eqn:E; [|reflexivity]. apply pt_eqb_eq in E. contradiction. }
@@ -290,9 +293,8 @@ Qed.
 Lemma interior_facts i u v : 0 <= i < 256 -> In u E12 -> In v E12 -> u <> v -> fdir u v = None ->
   lcount i (u, v) = lcount i (v, u) /\ (lcount i (u, v) <= 1)%nat.
 Proof.
-  intros Hi Hu Hv Huv Hf. pose proof interior_ok as H. unfold interior_check in H.
-  rewrite forallb_forall in H. specialize (H i (proj2 (in_idx256 i) Hi)).
-  rewrite forallb_forall in H. specialize (H u Hu). rewrite forallb_forall in H. specialize (H v Hv).
+  intros Hi Hu Hv Huv Hf.
+  pose proof (all3_spec _ _ _ _ interior_ok i u v (proj2 (in_idx256 i) Hi) Hu Hv) as H. unfold interior_pred in H.
   apply ge_eqb_neq in Huv. rewrite Huv, Hf in H. cbn [negb] in H.
   rewrite andb_true_iff, Nat.eqb_eq, Nat.leb_le in H. exact H.
 Qed.
@@ -303,16 +305,15 @@ Lemma face_facts d i i' u v : In d face_dirs -> 0 <= i < 256 -> 0 <= i' < 256 ->
   lcount i' (gsub u d, gsub v d) = lcount i (v, u) /\
   (lcount i (u, v) + lcount i' (gsub u d, gsub v d) <= 1)%nat.
 Proof.
-  intros Hd Hi Hi' Hc Hu Hv Huv Hu' Hv'. pose proof face_check_ok as H. unfold face_check in H.
-  rewrite forallb_forall in H. specialize (H d Hd). cbv zeta in H.
-  rewrite forallb_forall in H. specialize (H i (proj2 (in_idx256 i) Hi)).
-  rewrite forallb_forall in H. specialize (H i' (proj2 (in_idx256 i') Hi')).
-  rewrite Hc in H. unfold face_ok in H. cbv zeta in H. rewrite forallb_forall in H.
+  intros Hd Hi Hi' Hc Hu Hv Huv Hu' Hv'.
+  pose proof (all1_spec _ _ face_check_ok d Hd) as H. unfold face_dir_pred in H.
+  pose proof (all2_spec _ _ _ H i i' (proj2 (in_idx256 i) Hi) (proj2 (in_idx256 i') Hi')) as H2. clear H.
+  unfold face_pred in H2. rewrite Hc in H2.
   assert (In (u, v) (face_pairs d)) as Hp.
-  { unfold face_pairs. apply filter_In. split; [apply in_prod; assumption|].
+  { unfold face_pairs. apply filter_In. split; [apply in_prod; assumption|]. unfold face_pair_pred.
     rewrite !andb_true_iff, negb_true_iff, ge_eqb_neq, !in_e12_in. auto. }
-  specialize (H _ Hp). cbn beta iota in H.
-  rewrite !andb_true_iff, !Nat.eqb_eq, Nat.leb_le in H. unfold lcount. tauto.
+  pose proof (all1_spec _ _ H2 _ Hp) as H3. clear H2. unfold face_edge_pred in H3. cbv zeta in H3.
+  rewrite !andb_true_iff, !Nat.eqb_eq, Nat.leb_le in H3. unfold lcount. tauto.
 Qed.
 
 Lemma ltris_0 : ltris 0 = [].
@@ -320,8 +321,7 @@ Proof. vm_compute. reflexivity. Qed.
 
 Lemma incr_01 k : In k idx8l -> let '(x, y, z) := incr k in 0 <= x <= 1 /\ 0 <= y <= 1 /\ 0 <= z <= 1.
 Proof.
-  intros Hk. pose proof shape_ok as H. unfold shape_check in H. rewrite !andb_true_iff in H.
-  destruct H as [[[[_ H] _] _] _]. rewrite forallb_forall in H. specialize (H k Hk).
+  intros Hk. pose proof (all1_spec _ _ incr01_ok k Hk) as H. unfold incr01_pred in H.
   destruct (incr k) as [[x y] z]. rewrite !andb_true_iff, !orb_true_iff, !Z.eqb_eq in H. lia.
 Qed.
 
@@ -351,8 +351,12 @@ Lemma F_pos_facts e c : (0 < F e c + F (swap e) c)%nat ->
   In (fst (dsub e c)) E12 /\ In (snd (dsub e c)) E12 /\ fst (dsub e c) <> snd (dsub e c).
 Proof.
   unfold F. rewrite dsub_swap. destruct (dsub e c) as [u v]. cbn [swap fst snd]. intros H.
-  assert ((0 < lcount (case_index s c) (u, v))%nat \/ (0 < lcount (case_index s c) (v, u))%nat) as [H1|H1] by lia;
-    apply lcount_pos_facts in H1; try apply case_index_range; intuition.
+  destruct (Nat.eq_dec (lcount (case_index s c) (u, v)) 0) as [E0|E0].
+  - assert (0 < lcount (case_index s c) (v, u))%nat as H1 by (rewrite E0 in H; exact H).
+    apply lcount_pos_facts in H1; [|apply case_index_range]. destruct H1 as (A & B & C).
+    repeat split; auto.
+  - assert (0 < lcount (case_index s c) (u, v))%nat as H1 by (apply Nat.neq_0_lt_0; exact E0).
+    apply lcount_pos_facts in H1; [|apply case_index_range]. exact H1.
 Qed.
 
 Lemma contributing e c0 c : (0 < F e c0 + F (swap e) c0)%nat -> (0 < F e c + F (swap e) c)%nat -> c <> c0 ->
@@ -363,7 +367,7 @@ Proof.
   { intros g. rewrite gsub_gsub, padd_psub. reflexivity. }
   destruct e as [g1 g2]. unfold dsub in *. cbn [fst snd] in *.
   apply fdir_unique; auto.
-  - intros E. apply Hne. rewrite <- (padd_psub c0 c), E. pts. pteq.
+  - intros E. apply Hne. apply psub_zero. exact E.
   - rewrite <- G. exact Hu'.
   - rewrite <- G. exact Hv'.
 Qed.
@@ -410,13 +414,12 @@ Proof.
       set (c1 := padd c0 d).
       assert (forall c, In c L -> c <> c0 -> c <> c1 -> (F e c + F (swap e) c = 0)%nat) as Hz.
       { intros c _ Hn0 Hn1. destruct (Dec c) as [Z0|P]; [exact Z0|]. exfalso. apply Hn1.
-        specialize (Hcon c P Hn0). inversion Hcon; subst d. unfold c1. apply padd_psub. }
+        specialize (Hcon c P Hn0). inversion Hcon; subst d. unfold c1. symmetry. apply padd_psub. }
       apply fdir_some in Fd. destruct Fd as (Hd & Hu' & Hv').
       assert (c0 <> c1) as Hne.
-      { unfold c1. intros E. assert (d = (0, 0, 0)) as D0.
-        { rewrite <- (psub_padd c0 d), <- E. clear. pts. pteq. }
+      { unfold c1. intros E. assert (d = (0, 0, 0)) as D0 by (apply (padd_zero_inv c0); exact E).
         subst d. vm_compute in Hd. intuition discriminate. }
-      rewrite (sum_two_cells (F e) c0 c1), (sum_two_cells (F (swap e)) c0 c1); auto;
+      unfold L in *. rewrite (sum_two_cells (F e) c0 c1), (sum_two_cells (F (swap e)) c0 c1); auto;
         try (intros; apply F_outside; assumption);
         try (intros c Hc Hn0 Hn1; specialize (Hz c Hc Hn0 Hn1); lia).
       pose proof (face_facts d (case_index s c0) (case_index s c1) _ _ Hd (case_index_range s c0)
@@ -427,10 +430,10 @@ Proof.
     + (* interior edge: only c0 contributes *)
       assert (forall c, In c L -> c <> c0 -> (F e c + F (swap e) c = 0)%nat) as Hz.
       { intros c _ Hn0. destruct (Dec c) as [Z0|P]; [exact Z0|]. specialize (Hcon c P Hn0). discriminate. }
-      rewrite (sum_one_cell (F e) c0), (sum_one_cell (F (swap e)) c0); auto;
+      unfold L in *. rewrite (sum_one_cell (F e) c0), (sum_one_cell (F (swap e)) c0); auto;
         try (intros c Hc Hn0; specialize (Hz c Hc Hn0); lia).
       pose proof (interior_facts (case_index s c0) _ _ (case_index_range s c0) Hu Hv Huv Fd) as (A & B).
-      unfold F. rewrite !dsub_swap. destruct (dsub e c0) as [u v]. cbn [swap fst snd] in *. lia.
+      unfold F. rewrite !dsub_swap. destruct (dsub e c0) as [u v]. unfold swap. cbn [fst snd] in *. split; [exact A|exact B].
   - (* no cell emits the edge or its reverse *)
     assert (forall c, In c L -> (F e c + F (swap e) c = 0)%nat) as Hz.
     { intros c Hc. destruct (F e c + F (swap e) c)%nat eqn:E; [reflexivity|]. exfalso.
